@@ -1335,7 +1335,9 @@ class GffSim(Base):
         self.directives = ["gff-version 3"]
 
     def view(self, f):
-        return [tuple(f[i]) for i in range(len(f))], [d for d, _ in f.directives()]
+        # directives with their line numbers: directives() is documented to give (text, line index), and the
+        # line index is part of the parsed view that must agree with the object's own text
+        return [tuple(f[i]) for i in range(len(f))], [(d, int(i)) for d, i in f.directives()]
 
     def invariants(self, after):
         f = self.file
@@ -1344,8 +1346,12 @@ class GffSim(Base):
             self.fail("view:raised", after=after, got=exc_name(live), msg=str(live)[:200])
         if live[0] != self.model:
             self.fail("model:view-differs", after=after, got=live[0][:4], expected=self.model[:4])
-        if live[1] != self.directives:
+        if [d for d, _ in live[1]] != self.directives:
             self.fail("model:directives-differ", after=after, got=live[1], expected=self.directives)
+        for d, i in live[1]:
+            if not (0 <= i < len(f.lines)) or f.lines[i] != "##" + d:
+                self.fail("consistency:directive-line-index", after=after, directive=d, index=i,
+                          line=f.lines[i] if 0 <= i < len(f.lines) else None)
         st, re = call(lambda: self.view(self.F.read(io.StringIO(text_of(f)))))
         if st == "exc":
             self.fail("consistency:own-text-unparsable", after=after, got=exc_name(re), msg=str(re)[:200])
@@ -1356,7 +1362,8 @@ class GffSim(Base):
             self.fail("model:iteration-differs", after=after)
 
     def resync(self):
-        self.model, self.directives = self.view(self.file)
+        self.model, d = self.view(self.file)
+        self.directives = [x for x, _ in d]
 
     def note(self, e):
         vals = [e[0], e[1]] + [x for kv in (e[8] or {}).items() for x in kv]
